@@ -30,14 +30,29 @@ ASSUMPTIONS = [
     "bool members hold 0/1, enum members hold declared values",
     "struct/function names follow the documented scheme (checked separately by C15)",
 ]
-REQUIRED_LABELS = ["batch_array", "signed_nonstd", "width_gt32", "unaligned_start", "ext_array", "ext_message", "array_of_message", "alias_use", "cfg:single_tu", "cfg:clang", "cfg:gcc-O3", "cfg:packed", "element_struct_ge_64KiB"]
+REQUIRED_LABELS = ["batch_array", "signed_nonstd", "width_gt32", "unaligned_start", "ext_array", "ext_message", "array_of_message", "alias_use", "cfg:single_tu", "cfg:clang", "cfg:gcc-O3", "cfg:packed", "element_struct_ge_64KiB", "cfg:libc_headers_before_runtime:single_tu", "cfg:extra_flags", "cfg:-std=c99"]
 NT_LABELS = {"width_gt8", "unaligned_start", "batch_array", "signed_nonstd", "ext_message", "ext_array", "nested_value", "alias_use", "array"}
 
 CONFIGS = [("gcc", "-O0"), ("gcc", "-O1"), ("gcc", "-O2"), ("gcc", "-O3"), ("clang", "-O2")]
 
 
+# what a user's build may add without changing what the code means
+PRE_INCLUDES = ["stdlib.h", "time.h", "pthread.h", "sys/types.h", "signal.h", "endian.h", "sys/param.h", "sys/socket.h", "arpa/inet.h", "math.h", "limits.h", "stdio.h", "string.h"]
+ABI_NEUTRAL_FLAGS = ["-funsigned-char", "-fsigned-char", "-fshort-enums", "-fno-strict-aliasing", "-fwrapv", "-D_GNU_SOURCE", "-fstack-protector-all", "-fPIC", "-fno-common", "-D_FORTIFY_SOURCE=2", "-DNDEBUG"]
+LIB_STDS = ["", "", "", "-std=c99", "-std=c11", "-std=c17", "-std=gnu99", "-std=gnu17", "-std=c2x"]
+
+
 def config_strategy() -> Any:
-    return st.fixed_dictionaries({"cc_opt": st.sampled_from(CONFIGS), "single_tu": st.booleans(), "align": st.sampled_from([0, 0, 0, 1, 2, 4, 8])})
+    return st.fixed_dictionaries(
+        {
+            "cc_opt": st.sampled_from(CONFIGS),
+            "single_tu": st.booleans(),
+            "align": st.sampled_from([0, 0, 0, 1, 2, 4, 8]),
+            "pre": st.one_of(st.just([]), st.lists(st.sampled_from(PRE_INCLUDES), min_size=1, max_size=3, unique=True)),
+            "flags": st.one_of(st.just([]), st.lists(st.sampled_from(ABI_NEUTRAL_FLAGS), min_size=1, max_size=2, unique=True)),
+            "lib_std": st.sampled_from(LIB_STDS),
+        }
+    )
 
 
 def strategy(tier: str) -> Any:
@@ -47,7 +62,14 @@ def strategy(tier: str) -> Any:
 def run_case(case: cases.SVCase, stats: Stats) -> None:
     cc, opt = case.config.get("cc_opt", ("gcc", "-O0"))
     single = case.config.get("single_tu", False)
-    cfg = cexec.CConfig(cc=cc, opt=opt, single_tu=single)
+    flags = [x for x in case.config.get("flags", []) if not (x == "-D_FORTIFY_SOURCE=2" and opt == "-O0")]
+    cfg = cexec.CConfig(cc=cc, opt=opt, single_tu=single, extra=flags, pre_includes=case.config.get("pre", []), lib_std="" if single else case.config.get("lib_std", ""))
+    if cfg.pre_includes:
+        stats.count("cfg:libc_headers_before_runtime" + (":single_tu" if single else ""))
+    if cfg.extra:
+        stats.count("cfg:extra_flags")
+    if cfg.lib_std:
+        stats.count("cfg:" + cfg.lib_std)
     align = case.config.get("align", 0)
     if align:
         # documented option: packed structs with the given alignment (power of two; 3/5/6/7 are recorded finding N6)
